@@ -324,6 +324,8 @@ fn literals32(r: &mut Rng, thorough: bool) -> Vec<(String, &'static str)> {
 }
 
 pub fn replay(sink: &mut Sink, toks: &[&str]) {
+    // correct rounding is claimed for float_roundtrip builds only: elsewhere only the f32 print → parse ops apply
+    if !cfg!(feature = "fr") && !matches!(toks[0], "f32all" | "f32pr") { return; }
     match toks[0] {
         "f32all" => f32_all(sink),
         _ if toks.len() < 2 => {}
